@@ -1,0 +1,63 @@
+//go:build verif
+
+// Contracts for the deductive verifier in /verif (comment-only file; no code).
+// C39: the WebSocket transport hands the broker the client's MQTT byte stream unchanged, however the client cut it
+// into binary messages, and sends the broker's bytes as binary messages.
+
+package listeners
+
+// ---- the assumed behaviour of github.com/gorilla/websocket (a dependency; not verified) ----
+// wstream: the payload bytes of the binary messages the peer sends, concatenated in order: the client's MQTT byte stream.
+// wnext: the offset in wstream at which the next message handed out by NextReader begins.
+// verif:ghost field wstream ref bytes
+// verif:ghost field wnext ref int
+// wnonbinary: how many non-binary (text) data messages NextReader has handed out
+// verif:ghost field wnonbinary ref int
+// wsent / wsentlen: the payload bytes of the binary messages written so far, concatenated; wsenttext counts non-binary writes
+// verif:ghost field wsent ref bytes
+// verif:ghost field wsentlen ref int
+// verif:ghost field wsentother ref int
+// verif:ext websocket.Conn.NextReader params=c results=op,r,err
+//@ requires c != nil
+//@ modifies c.wnext, c.wnonbinary
+//@ ensures c.wnonbinary == old(c.wnonbinary) + ((err == nil && op != 2) ? 1 : 0)
+//@ ensures err == nil ==> r != nil && refof(r) != 0 && refof(r).rpos == 0 && refof(r).blen >= 0
+//@ ensures err == nil && op == 2 ==> c.wnext == old(c.wnext) + refof(r).blen && (forall i int :: 0 <= i && i < refof(r).blen ==> refof(r).bdata[i] == c.wstream[old(c.wnext) + i])
+//@ ensures !(err == nil && op == 2) ==> c.wnext == old(c.wnext)
+//@ ensures c.wnext >= 0
+// a message reader: Read copies the next bytes of the message; io.EOF exactly when the message is exhausted
+// verif:ext io.Reader.Read params=self,p results=n,err
+//@ modifies contents(p), refof(self).rpos
+//@ ensures 0 <= n && n <= len(p) && refof(self).rpos == old(refof(self).rpos) + n && refof(self).rpos <= refof(self).blen
+//@ ensures forall i int :: 0 <= i && i < n ==> p[i] == refof(self).bdata[old(refof(self).rpos) + i]
+//@ ensures errIs(err, io.EOF) ==> refof(self).rpos == refof(self).blen
+// verif:ext websocket.Conn.WriteMessage params=c,messageType,data results=err
+//@ requires c != nil
+//@ modifies c.wsent, c.wsentlen, c.wsentother
+//@ ensures err == nil && messageType == 2 ==> c.wsentlen == old(c.wsentlen) + len(data) && c.wsentother == old(c.wsentother) && (forall i int :: 0 <= i && i < len(data) ==> c.wsent[old(c.wsentlen) + i] == data[i]) && (forall i int :: 0 <= i && i < old(c.wsentlen) ==> c.wsent[i] == old(c.wsent[i]))
+//@ ensures err == nil && messageType != 2 ==> c.wsentother == old(c.wsentother) + 1
+//@ ensures err != nil ==> c.wsentlen == old(c.wsentlen) && c.wsentother == old(c.wsentother)
+
+// ---- wsConn ----
+// how many bytes of the client's stream Read has handed to the broker: everything up to the next message, minus what is left of
+// the message being read
+// verif:def delivered(ws *wsConn) int = ws.r == nil ? ws.c.wnext : ws.c.wnext - (refof(ws.r).blen - refof(ws.r).rpos)
+// verif:def wsOK(ws *wsConn) bool = ws != nil && ws.c != nil && ws.c.wnext >= 0 && (ws.r != nil ==> refof(ws.r) != 0 && 0 <= refof(ws.r).rpos && refof(ws.r).rpos <= refof(ws.r).blen && refof(ws.r).blen <= ws.c.wnext && (forall i int :: 0 <= i && i < refof(ws.r).blen ==> refof(ws.r).bdata[i] == ws.c.wstream[ws.c.wnext - refof(ws.r).blen + i]))
+// verif:func listeners.wsConn.Read
+//@ requires wsOK(ws)
+//@ modifies contents(p), ws.r, ws.c.wnext, ws.c.wnonbinary, all(rpos)
+//@ ensures wsOK(ws)
+//@ ensures C39-the-position-in-the-clients-stream-advances-by-the-bytes-read: r1 == nil ==> 0 <= r0 && r0 <= len(p) && delivered(ws) == old(delivered(ws)) + r0
+//@ ensures C39-the-bytes-read-are-the-next-bytes-of-the-clients-stream: r1 == nil ==> (forall i int :: 0 <= i && i < r0 ==> p[i] == ws.c.wstream[old(delivered(ws)) + i])
+//@ ensures C39-a-non-binary-message-is-an-error-and-delivers-nothing: ws.c.wnonbinary != old(ws.c.wnonbinary) ==> r1 != nil && r0 == 0
+//@ ensures C39-nothing-is-skipped-or-repeated-between-calls: r1 == nil ==> ws.c.wstream == old(ws.c.wstream)
+// verif:loop listeners.wsConn.Read 1
+//@ invariant 0 <= n && n <= len(p) && wsOK(ws) && ws.r != nil && ws.c == old(ws.c)
+//@ invariant progress: delivered(ws) == old(delivered(ws)) + n
+//@ invariant copied: forall i int :: 0 <= i && i < n ==> p[i] == ws.c.wstream[old(delivered(ws)) + i]
+//@ invariant rest-of-the-array-untouched: forall j int :: (j < offset(p) || j >= offset(p) + len(p)) ==> backing(p)[j] == old(backing(p)[j])
+// verif:func listeners.wsConn.Write
+//@ requires ws != nil && ws.c != nil
+//@ modifies ws.c.wsent, ws.c.wsentlen, ws.c.wsentother
+//@ ensures C39-replies-are-sent-whole-as-one-binary-message: r1 == nil ==> r0 == len(p) && ws.c.wsentlen == old(ws.c.wsentlen) + len(p) && ws.c.wsentother == old(ws.c.wsentother) && (forall i int :: 0 <= i && i < len(p) ==> ws.c.wsent[old(ws.c.wsentlen) + i] == p[i]) && (forall i int :: 0 <= i && i < old(ws.c.wsentlen) ==> ws.c.wsent[i] == old(ws.c.wsent[i]))
+//@ ensures C39-a-failed-write-sends-nothing: r1 != nil ==> r0 == 0 && ws.c.wsentlen == old(ws.c.wsentlen) && ws.c.wsentother == old(ws.c.wsentother)
